@@ -54,15 +54,31 @@ def _result(fn):
     return {"kind": "other", "b": False, "v": [], "exc": type(v).__name__, "code": -1}
 
 
+URL_PROPS = ("url", "base_url", "host_url", "url_root", "root_url")
+# every public entry point that takes or honours a trusted-hosts configuration, with its other options:
+#   wsgi.get_current_url:<root_only><strip_querystring><host_only>   (all 8 flag combinations)
+#   Request.<prop>:inst | :cls   (trusted_hosts set on the instance / as an attribute of a Request subclass)
+#   sansio.Request.<prop>        (the sans-IO request class directly)
+# (Map.bind_to_environ calls get_host(environ) WITHOUT a trusted list: it honours no such configuration.)
+ENTRY_POINTS = (["sansio.get_host", "wsgi.get_host"]
+                + [f"wsgi.get_current_url:{a}{b}{c}" for a in "01" for b in "01" for c in "01"]
+                + [f"Request.{p}:{m}" for p in ("host",) + URL_PROPS for m in ("inst", "cls")]
+                + [f"sansio.Request.{p}" for p in ("host", "url", "host_url")])
+
+
 def host_call(api: str, host: str | None, lst: list[str], scheme: str = "http",
               srv: str = "srv.example", srvport: str = "8080") -> dict:
-    """Run one of the four entry points on (host, trusted list) and return the trace line (without t/i)."""
+    """Run one entry point on (host, trusted list) and return the trace line (without t/i).
+    vkind tells the judge what a returned text is: the host, or a URL built from it."""
     from werkzeug.sansio import utils as su
+    from werkzeug.sansio.request import Request as SansIORequest
     from werkzeug import wsgi
+    from werkzeug.datastructures import Headers
     from werkzeug.wrappers import Request
 
     present = host is not None
     port = int(srvport) if srvport else None
+    vkind = "host"
     if api == "host_is_trusted":
         r = _result(lambda: su.host_is_trusted(host, list(lst)))
         srv_, srvport_ = "", ""  # no server fallback: an absent host is the empty host
@@ -70,24 +86,80 @@ def host_call(api: str, host: str | None, lst: list[str], scheme: str = "http",
         srv_, srvport_ = srv, srvport
         if api == "sansio.get_host":
             r = _result(lambda: su.get_host(scheme, host, (srv, port), list(lst)))
+        elif api.startswith("sansio.Request."):
+            prop = api.rsplit(".", 1)[1]
+            vkind = "host" if prop == "host" else "url"
+
+            def f():
+                req = SansIORequest("GET", scheme, (srv, port), "/app", "/p", b"q=1",
+                                    Headers([("Host", host)] if present else []), "10.0.0.9")
+                req.trusted_hosts = list(lst)
+                return getattr(req, prop)
+            r = _result(f)
         else:
             environ = {"wsgi.url_scheme": scheme, "SERVER_NAME": srv, "SERVER_PORT": srvport or "80",
-                       "REQUEST_METHOD": "GET", "PATH_INFO": "/", "SCRIPT_NAME": "", "QUERY_STRING": ""}
+                       "REQUEST_METHOD": "GET", "PATH_INFO": "/p", "SCRIPT_NAME": "/app", "QUERY_STRING": "q=1"}
             if not srvport:
                 srvport_ = "80"
             if present:
                 environ["HTTP_HOST"] = host
             if api == "wsgi.get_host":
                 r = _result(lambda: wsgi.get_host(environ, list(lst)))
-            else:
+            elif api.startswith("wsgi.get_current_url:"):
+                ro, sq, ho = (c == "1" for c in api.split(":")[1])
+                vkind = "url"
+                r = _result(lambda: wsgi.get_current_url(environ, root_only=ro, strip_querystring=sq, host_only=ho,
+                                                         trusted_hosts=list(lst)))
+            else:   # Request.<prop>[:inst|:cls]
+                name, _, mode = api.partition(":")
+                prop = name.split(".", 1)[1]
+                vkind = "host" if prop == "host" else "url"
+
                 def f():
-                    req = Request(environ)
-                    req.trusted_hosts = list(lst)
-                    return req.host
+                    if mode == "cls":
+                        class TrustedRequest(Request):
+                            trusted_hosts = list(lst)
+                        req = TrustedRequest(environ)
+                    else:
+                        req = Request(environ)
+                        req.trusted_hosts = list(lst)
+                    return getattr(req, prop)
                 r = _result(f)
-    return {"op": "host", "api": api, "host": cps(host or ""), "present": present, "srv": cps(srv_),
+    return {"op": "host", "api": api, "vkind": vkind, "host": cps(host or ""), "present": present, "srv": cps(srv_),
             "srvport": cps(srvport_), "scheme": scheme, "list": [cps(e) for e in lst],
             "tab": idna_tab([host or "", srv_, *lst]), "r": r}
+
+
+EP_TRUSTED = ["trusted.example", ".sub.example", "[::1]"]
+EP_GOOD = ["trusted.example", "a.sub.example", "sub.example", "[::1]"]
+EP_BAD = ["evil.example", "eviltrusted.example", "trusted.example.evil.com", "xsub.example", "[::2]", "a..b",
+          "a" * 64 + ".sub.example", "trusted.example@evil.example", "asub.example", ""]
+EP_EITHER = ["TRUSTED.example", "trusted.example."]
+STD_PORT = {"http": "80", "ws": "80", "https": "443", "wss": "443"}
+
+
+def entrypoint_cases(quick: bool) -> list:
+    """ENTRY POINTS x OPTIONS x environ shapes: Host present (no port / the scheme's default port / another port)
+    or absent (SERVER_NAME + SERVER_PORT stand in), http / https / ws / wss.  Quick rotates a slice of the
+    hosts through the shapes (every entry point x option combination meets trusted and untrusted hosts in every
+    shape); thorough runs the whole product."""
+    cases, n = [], 0
+    apis = ["host_is_trusted"] + ENTRY_POINTS
+    for scheme in ("http", "https", "ws", "wss"):
+        for pk in ("none", "std", "other"):
+            suffix = {"none": "", "std": ":" + STD_PORT[scheme], "other": ":8080"}[pk]
+            if quick:
+                hosts = [EP_GOOD[n % len(EP_GOOD)], EP_BAD[n % len(EP_BAD)], EP_BAD[(n + 3) % len(EP_BAD)],
+                         EP_BAD[(n + 7) % len(EP_BAD)], EP_EITHER[n % 2]]
+            else:
+                hosts = EP_GOOD + EP_BAD + EP_EITHER
+            n += 1
+            for h in hosts:
+                cases.append([h + suffix if h else h, EP_TRUSTED, apis, scheme, "srv.example", "8080"])
+        for srv in ("trusted.example", "a.sub.example", "::1", "evil.example", "eviltrusted.example", "::2", "a..b"):
+            for sport in (STD_PORT[scheme], "8080"):
+                cases.append([None, EP_TRUSTED, ENTRY_POINTS, scheme, srv, sport])
+    return cases
 
 
 def host_case(case) -> list[dict]:
